@@ -37,7 +37,7 @@ func init() {
 		Technique: "typestate/loop-shape analysis of the counting loop (membership test dominates acceptance, insertion on the counting path, collection scope), key-schema analysis of the roster families, must-facts at the acceptance and notification sites",
 		Explanation: "D1 roster keys are 'u'|'n' ‖ cid(32, guarded) ‖ vector(1) ‖ counter and 'r' ‖ cid ‖ index: scans per cid / (cid, vector) are exact; D2 CommitContainerListUpdate deletes every old 'n' and 'r' key of the cid, and for every scanned 'u' key deletes it and puts 'n'‖key[1:] with the same value, the old-'n' scan preceding the first 'n' put; " +
 			"D3 distinct-principal counting: in VerifyPlacementSignatures the signature check is reachable only through the exhausted exit of a membership loop comparing the candidate member key with a collection that outlives one signature iteration and is initialised per vector; the member key is inserted and the counter incremented only on the success branch; D3b a vector is accepted only under counter == REP read from family 'r' of the same cid, the nodes are scanned for the same vector index that selects sigs[i], and true is returned only after the REP scan is exhausted; " +
-			"D4 SubmitObjectPut notifies only if VerifyPlacementSignatures(cid read from the meta map, the meta bytes, the signatures) returned true and the meta flag of that cid is present. D6 each of the five loops of the commit is reached on every normal path (REP writes only for a non-nil list), ends only on exhaustion and no iteration goes round its operation.",
+			"D4 SubmitObjectPut notifies only if VerifyPlacementSignatures(cid read from the meta map, the meta bytes, the signatures) returned true and the meta flag of that cid is present. D6 each of the five loops of the commit is reached on every normal path (REP writes only for a non-nil list), ends only on exhaustion and no iteration goes round its operation. D7 the candidate member is an item of the scan of this vector's members only (a candidate list must start empty inside the per-vector loop and receive only items of that scan).",
 		NotCovered: "the BE16 counter encoding across 127/255/256 (counterToBytes/counterFromBytes are value-level byte manipulations), submission order equality with a model.",
 		Run:        runC14,
 	})
@@ -929,6 +929,58 @@ func checkDistinctCounting(cx *CheckCtx, fn *ssa.Function) {
 				}
 			}
 		}
+	}
+	// … and the candidate member comes from that scan only: it is the current item of the
+	// Nodes(cid, i) iterator, or an element of a list that starts empty inside the per-vector
+	// loop and only receives items of that iterator
+	if okVec {
+		isNodesIter := func(v ssa.Value) bool {
+			c, ok := stripConv(v).(*ssa.Call)
+			if !ok {
+				return false
+			}
+			f := c.Common().StaticCallee()
+			return f != nil && fq(f) == cnrPkg+".Nodes"
+		}
+		okSrc, whySrc := false, "the candidate key is not taken from the member scan"
+		if src, isEl := elementOf(pub); isEl {
+			switch {
+			case isNodesIter(src):
+				okSrc = true
+			default:
+				vecLoops := enclosingLoops(vb)
+				if len(vecLoops) > 0 {
+					vecLoop := loopBlocks(vecLoops[len(vecLoops)-1]) // the per-vector loop: outermost around the check
+					okSrc, whySrc = true, ""
+					cl := phiClosure(src)
+					for v := range cl {
+						switch x := v.(type) {
+						case *ssa.Phi:
+							for i, e := range x.Edges {
+								if !vecLoop[x.Block().Preds[i]] {
+									okSrc, whySrc = false, "the candidate list is carried over from outside the per-vector loop (members of earlier vectors stay in it)"
+								}
+								_ = e
+							}
+						default:
+							if isEmptySlice(v) {
+								continue
+							}
+							base, elems, isApp := appendOf(v)
+							good := isApp && cl[base] && len(elems) == 1
+							if good {
+								it, isEl := elementOf(elems[0])
+								good = isEl && isNodesIter(it)
+							}
+							if !good {
+								okSrc, whySrc = false, "the candidate list receives something other than items of the member scan"
+							}
+						}
+					}
+				}
+			}
+		}
+		cx.decide(okSrc, "acceptance", key+"/member-source", "the candidate member is an item of the scan of this vector's members only", "signatures of vector i can be matched with keys that are not members of vector i: "+whySrc, w.pos(V.Pos()))
 	}
 	cx.decide(okVec, "acceptance", key+"/vector", "members are scanned for the vector whose index selects the signature list", "signatures of vector i are checked against the members of another vector", w.pos(fn.Pos()))
 }
